@@ -880,5 +880,7 @@ def run(F, rep, tier):
     rep.attempt(rule_r7, F, rep)
     rep.attempt(rule_r8, F, rep)
     rep.attempt(rule_r9, F, rep)
+    from . import stdlike
+    rep.attempt(stdlike.rule_lookalikes, F, rep, "C20.R9")
     rep.assume("text-block indentation stripping, number token values and operator maximal munch are behavioural and not decided")
     return EXPLANATION
